@@ -63,6 +63,9 @@ TRUSTED = [
     "the per-dialect lexer Spec.Ident.lex as a description of how the five databases tokenise DDL (delimited identifiers with doubled "
     "close delimiter, '' in literals, backslash escapes on MySQL) and Spec.Ident.shape as the grammar of each statement",
     "bare non-ASCII letters other than U+0130/U+212A are taken to denote themselves (SQLAlchemy leaves U+0131/U+017F unquoted)",
+    "statements compiled by SQLAlchemy's own constructs on behalf of an operation have no model: they are judged only by "
+    "Spec.Ident.mentionsRef (schema.table named as identifiers, text lexically complete); MSSQL sp_addextendedproperty comments are "
+    "not judged; for those statements MSSQL schema names avoid '[', ']', '.' (interpreted by SQLAlchemy's quote_schema)",
     "the reserved-word predicate is the live preparer's (passed per case for the names of that case)",
     "SQLAlchemy's LEGAL_CHARACTERS regex ends in '$', which also matches before one trailing newline: a name such as 'abc\\n' is left "
     "unquoted by SQLAlchemy (not Alembic's code); the model mirrors this (Model.Ident.legalChars), the theorems exclude names ending "
@@ -75,6 +78,12 @@ RULE = (
     "new_column_name, comment, autoincrement} x 3 existing_* patterns and MSSQL drop_column with every subset of mssql_drop_* flags, "
     "x dialect x all five schema kinds, random name classes; every statement of a multi-statement op is judged by the Lean "
     "specification against the table/schema/column the OPERATION named (not what the construct object carries) "
+    "fourth stream 'sa-ops': operations whose statements SQLAlchemy's own constructs compile (create/drop table/index incl. "
+    "if_exists, mssql_include/postgresql_include, constraints, table comments, bulk_insert incl. MSSQL SET IDENTITY_INSERT, PG "
+    "exclude constraint, add_column with column-level CHECK/FK/index/comment/unique/constraint-carrying type/attached column, "
+    "alter_column across constraint-carrying types, PG identity ALTER form) x dialect x schema none/plain/quoting x the seven "
+    "classes: Alembic's own constructs among them are compared with the model, the others are judged by Spec.Ident.mentionsRef "
+    "(lexically complete and naming the op's schema.table); a battery of 25 operations that must raise; "
     "(main stream: plain, reserved, mixed case, space, dialect quote char, single quote, non-ASCII, digit/_/$ "
     "initial, edge; separate extra-classes stream: names containing % or TAB): exhaustive over the class product, random inside a class; a case is non-trivial when at least one "
     "name needs quoting or a schema is given; distinct by emitted text"
@@ -194,6 +203,28 @@ def run_desc(ctx, dialect, desc, meta, pending, expect_ok=True):
     for idx, (el, emitted, raw) in enumerate(recs):
         cj = I.describe(c, el)
         if cj is None:
+            # compiled by one of SQLAlchemy's own constructs on behalf of the operation: no model, but the statement is
+            # still judged: it must be lexically complete and name schema.table of the operation (Spec.Ident.mentionsRef)
+            if desc.get("op") == "compile" or "t" not in desc:
+                continue
+            if dialect == "mssql" and type(el).__name__ in ("SetColumnComment", "DropColumnComment", "SetTableComment", "DropTableComment"):
+                ctx.hist("not_judged", "mssql:%s (sp_addextendedproperty 'schema', [s], 'table', [t]: SQLAlchemy's own non-dotted form)" % type(el).__name__)
+                continue
+            inp = {"dialect": dialect, "desc": desc, "index": idx, "construct": {"c": "sa:" + type(el).__name__}, **meta}
+            if emitted is None:
+                ctx.disagree("ident.describe", inp, {"raw": raw}, None)
+                continue
+            t = I.name_str(desc["t"])
+            alts = [[t]]
+            for key in ("col", "name"):
+                if desc.get(key) is not None:
+                    alts.append([t, I.name_str(desc[key])] if key == "col" else [I.name_str(desc[key])])
+            if type(el).__name__ in ("CreateIndex", "DropIndex") and getattr(el.element, "name", None) is not None:
+                alts.append([str(el.element.name)])  # SQLite / Oracle / PostgreSQL qualify the INDEX name with the schema
+            sch = desc.get("schema")
+            names = [a for alt in alts for a in alt] + [t] + [I.name_str(desc[k]) for k in ("col", "name", "schema") if desc.get(k) is not None]
+            pending.append((inp, emitted, {"op": "ident.mentions", "kind": dialect, "reserved": c.reserved(names),
+                                           "schema": None if sch is None else I.name_str(sch), "alts": alts, "emitted": emitted}))
             continue
         inp = {"dialect": dialect, "desc": desc, "index": idx, "construct": cj, **meta}
         if cj.get("c") == "?" or emitted is None:
@@ -210,10 +241,20 @@ def flush(ctx, pending):
     if not pending:
         return
     ans = ctx.drv.ask([p[2] for p in pending])
-    for (inp, emitted, _), a in zip(pending, ans):
+    for (inp, emitted, q), a in zip(pending, ans):
         cj = inp["construct"]
         key = "%s@%s" % (cj["c"], inp["dialect"])
         ctx.hist("construct@dialect", key)
+        if q["op"] == "ident.mentions":
+            if "err" in a:
+                ctx.disagree("ident.mentions", inp, {"emitted": emitted}, a)
+            elif a.get("holds") is not True:
+                ctx.fail(inp, "%s: a statement written for the operation does not name the operation's schema.table as identifiers" % key,
+                         impl={"emitted": emitted, "tokens": dec_toks(a.get("toks"))}, tags=[key])
+            else:
+                ctx.trace_ok()
+                ctx.nontrivial(emitted)
+            continue
         if "err" in a:
             ctx.disagree("ident.stmt", inp, {"emitted": emitted}, a)
             continue
@@ -309,6 +350,133 @@ def gen_impl_paths(ctx, rng, schema_kinds, reps):
                              "classes": [], "schema_kind": sk}
 
 
+SA_CLASSES = ["plain", "reserved", "mixed", "space", "qchar", "squote", "nonascii"]
+GENERIC = ["create_table", "drop_table", "create_index", "drop_index", "create_unique_constraint", "create_check_constraint",
+           "create_primary_key", "create_foreign_key", "create_table_comment", "drop_table_comment", "bulk_insert",
+           "create_exclude_constraint"]
+SQLITE_NOT_IMPLEMENTED = {"create_unique_constraint", "create_check_constraint", "create_primary_key", "create_foreign_key"}
+
+
+def gen_sa_ops(ctx, rng, reps):
+    """Operations whose statements SQLAlchemy's own constructs compile (toimpl.py paths, impl.create_index/bulk_insert
+    overrides, type-bound CHECK constraints dropped/added around alter_column, column-level FK / index / comment /
+    CHECK of add_column, PostgreSQL identity ALTER form).  Alembic's own constructs among the statements are compared
+    with the model as everywhere; the others are judged by Spec.Ident.mentionsRef with the op's schema.table.
+    Names: the property's seven classes; schema kinds none / plain / needs-quoting.  On MSSQL the schema avoids
+    '[', ']' and '.', which SQLAlchemy's own MSIdentifierPreparer.quote_schema interprets (not Alembic's code)."""
+    for d in I.ALL_DIALECTS:
+        c = I.Ctx.get(d)
+        p = c.prep
+
+        def nm(cls=None):
+            return G.gen_name(rng, cls or rng.choice(SA_CLASSES), p.final_quote, p.initial_quote, p.reserved_words)
+
+        def sch(sk):
+            if sk == "none":
+                return None
+            if sk == "plain":
+                return G.plain(rng, p.reserved_words)
+            for _ in range(50):
+                v = nm(rng.choice([x for x in SA_CLASSES if x != "plain" and not (d == "mssql" and x == "qchar")]))
+                if not (d == "mssql" and any(ch in v for ch in "[].")):
+                    return v
+            return "My Schema"
+
+        for sk in ("none", "plain", "quoting"):
+            for _ in range(reps):
+                for g in GENERIC:
+                    if g == "create_exclude_constraint" and d != "postgresql":
+                        continue
+                    if d == "mssql" and g in ("create_table_comment", "drop_table_comment"):
+                        continue  # sp_addextendedproperty 'schema', [s], 'table', [t]: SQLAlchemy's own non-dotted form
+                    desc = {"op": "generic", "g": g, "t": nm(), "schema": sch(sk), "col": nm(), "name": nm()}
+                    if g in ("create_table", "drop_table", "create_index", "drop_index"):
+                        desc["if"] = rng.random() < 0.5   # if_exists / if_not_exists
+                    if g == "create_index":
+                        desc["unique"] = rng.random() < 0.3
+                        if d == "mssql" and rng.random() < 0.6:
+                            desc["kw"] = {"mssql_include": [nm("plain"), desc["col"]]}   # a new and an already present column
+                        if d == "postgresql" and rng.random() < 0.6:
+                            desc["kw"] = {"postgresql_include": [nm("plain"), desc["col"]]}
+                    if g == "create_table":
+                        desc["index"] = rng.random() < 0.5
+                        # (MSSQL without schema: SQLAlchemy's table comment needs dialect.default_schema_name, None offline)
+                        desc["comment"] = rng.random() < 0.5 and not (d == "mssql" and sk == "none")
+                    if g == "create_exclude_constraint" and rng.random() < 0.5:
+                        desc["where"] = "1 > 0"
+                    yield d, desc, {"template": "sa:" + g, "classes": [], "schema_kind": sk}, not (d == "sqlite" and g in SQLITE_NOT_IMPLEMENTED)
+                # add_column with column-level CHECK (inline, base.add_column), FK, index, comment, constraint-carrying
+                # types, a column already attached to another table
+                for kw, extra in (({"check": True}, {}), ({"fk": "ref_tbl.id"}, {}), ({"index": True}, {}), ({"comment": "c'mt"}, {}),
+                                  ({"unique": True}, {}), ({}, {"type": "BOOLEAN_C"}), ({}, {"type": "ENUM_C"}), ({}, {"attached": True}),
+                                  ({"check": True, "index": True, "comment": "x", "nullable": False, "server_default": "zero"}, {})):
+                    desc = {"op": "add_column", "t": nm(), "col": nm(), "schema": sch(sk), "type": "INTEGER", "kw": dict(kw), **extra}
+                    if d == "mssql" and sk == "none" and kw.get("comment"):
+                        continue  # SQLAlchemy's sp_addextendedproperty needs dialect.default_schema_name (None offline): AttributeError
+                    # SQLite: explicit constraints raise NotImplementedError; type-bound ones (with a _create_rule) are skipped silently
+                    ok = not (d == "sqlite" and (kw.get("fk") or kw.get("unique")))
+                    yield d, desc, {"template": "add_column+" + "+".join(sorted(list(kw) + [str(v) for v in extra.values()] + list(extra))), "classes": [], "schema_kind": sk}, ok
+                # alter_column whose existing / new type carries a CHECK constraint (toimpl drops / adds it)
+                for ex, new in (("BOOLEAN_C", None), ("BOOLEAN_C", "INTEGER"), ("INTEGER", "BOOLEAN_C"), ("ENUM_C", "BOOLEAN_C")):
+                    kw = {"existing_type": ex, "existing_nullable": True}
+                    if new:
+                        kw["type_"] = new
+                    else:
+                        kw["nullable"] = False
+                    if rng.random() < 0.5:
+                        kw["new_column_name"] = nm()
+                    desc = {"op": "alter_column", "t": nm(), "col": nm(), "schema": sch(sk), "kw": kw}
+                    yield d, desc, {"template": "alter_type_constraint:%s->%s" % (ex, new), "classes": [], "schema_kind": sk}, True
+                if d == "postgresql":
+                    for a, b in (("identity", "identity2"), ("identity2", "identity")):
+                        desc = {"op": "alter_column", "t": nm(), "col": nm(), "schema": sch(sk),
+                                "kw": {"server_default": a, "existing_server_default": b}}
+                        yield d, desc, {"template": "identity_alter", "classes": [], "schema_kind": sk}, True
+
+
+# operations that must raise and write nothing (error paths of the anchored visitors / impls)
+def raise_battery():
+    out = []
+    for d in I.ALL_DIALECTS:
+        out.append((d, {"op": "alter_column", "t": "t", "col": "c", "schema": "s", "kw": {"server_default": "computed"}}, "computed"))
+        out.append((d, {"op": "alter_column", "t": "t", "col": "c", "schema": "s",
+                        "kw": {"server_default": None, "existing_server_default": "computed", "existing_type": "INTEGER"}}, "computed-drop"))
+        if d not in ("postgresql", "oracle"):
+            out.append((d, {"op": "alter_column", "t": "t", "col": "c", "schema": "s",
+                            "kw": {"server_default": "identity", "existing_type": "INTEGER", "existing_nullable": False}}, "identity"))
+    out.append(("mssql", {"op": "alter_column", "t": "t", "col": "c", "schema": None, "kw": {"nullable": True}}, "mssql-nullable-without-type"))
+    out.append(("mysql", {"op": "alter_column", "t": "t", "col": "c", "schema": None, "kw": {"nullable": True}}, "mysql-without-type"))
+    out.append(("mariadb", {"op": "alter_column", "t": "t", "col": "c", "schema": None, "kw": {"new_column_name": "d"}}, "mysql-without-type"))
+    out.append(("postgresql", {"op": "alter_column", "t": "t", "col": "c", "schema": None, "kw": {"postgresql_using": "c::int"}}, "pg-using-without-type"))
+    for d in ("mysql", "mariadb"):
+        out.append((d, {"op": "drop_constraint", "cname": "x", "t": "t", "schema": None, "type_": None}, "mysql-drop-constraint-no-type"))
+    out.append(("sqlite", {"op": "drop_constraint", "cname": "x", "t": "t", "schema": "s", "type_": "unique"}, "sqlite-drop-constraint"))
+    return out
+
+
+def check_raises(ctx):
+    for d, desc, why in raise_battery():
+        c = I.Ctx.get(d)
+        recs, err = I.apply_op(c, desc)
+        ctx.evaluation()
+        ctx.hist("raise_battery", "%s:%s:%s" % (d, why, type(err).__name__ if err else "no-error"))
+        own = [r for r in recs if I.describe(c, r[0]) is not None]
+        # statements written BEFORE the error (e.g. MODIFY before the unsupported identity change) are judged like any other
+        if err is None:
+            ctx.disagree("ident.raises", {"dialect": d, "desc": desc, "why": why}, "no error; wrote %r" % [r[1] for r in recs], "expected an error")
+        else:
+            ctx.trace_ok()
+        pending = []
+        for idx, (el, emitted, raw) in enumerate(recs):
+            cj = I.describe(c, el)
+            if cj is None or cj.get("c") == "?" or emitted is None:
+                continue
+            ecj = expected_construct(cj, desc)
+            pending.append(({"dialect": d, "desc": desc, "index": idx, "construct": cj, "template": "raises:" + why}, emitted,
+                            {"op": "ident.stmt", "kind": d, "reserved": [], "construct": cj, "specConstruct": ecj, "emitted": emitted}))
+        flush(ctx, pending)
+
+
 UNSUPPORTED = [
     ("sqlite", "columnComment"), ("mssql", "columnComment"), ("mysql", "columnNullable"), ("mysql", "columnType"),
     ("mysql", "columnName"), ("mysql", "columnDefault"), ("mariadb", "columnName"),
@@ -364,7 +532,24 @@ def run(ctx, rng_name="main", scale=1):
         run_desc(ctx, d, desc, meta, pending)
         if len(pending) >= 4000:
             flush(ctx, pending)
+    for d, desc, meta, ok in gen_sa_ops(ctx, rng, (1 if not ctx.thorough else 6) * scale):
+        meta["stream"] = "sa-ops"
+        ctx.hist("stream", "sa-ops")
+        ctx.hist("dialect", d)
+        ctx.hist("template", meta["template"])
+        ctx.hist("schema_kind", meta["schema_kind"])
+        if ok:
+            run_desc(ctx, d, desc, meta, pending)
+        else:
+            recs, err = I.apply_op(I.Ctx.get(d), desc)
+            ctx.evaluation()
+            ctx.hist("expected_not_implemented", "%s:%s:%s" % (d, meta["template"], type(err).__name__ if err else "no-error"))
+            if not isinstance(err, NotImplementedError):
+                ctx.disagree("ident.op", {"dialect": d, "desc": desc}, repr(err), "expected NotImplementedError (SQLite has no ALTER for constraints)")
+        if len(pending) >= 4000:
+            flush(ctx, pending)
     flush(ctx, pending)
+    check_raises(ctx)
     ctx.exhaustive = True  # the class product is enumerated; inside a class names are random
 
 
